@@ -15,7 +15,7 @@ CHECK = {'rule': 'rapid-generated programs of Set/SetAll calls (0-6 variables, ~
                  'the open finding C18-dash-delimiter-prefix-highbyte is recognised by its cause relative to the here-document terminator actually read from the '
                  'script: such a variable is counted as excluded and not judged for verbatim/exported while the finding is open',
                  'the SSH key pair of the environment is left empty (the statement speaks about environment variables only)'],
- 'essential_labels': {'all': ['builder-container',
+ 'essential_labels': {'all': ['replay-gc-between-builds', 'builder-container',
                               'builder-ssh',
                               'value-dollar',
                               'value-backquote',
